@@ -123,16 +123,21 @@ def sameSet (a b : List (Nat × Nat)) : Bool := a.all b.contains && b.all a.cont
 
 def snapEq (a b : Snap) : Bool := [1, 2, 3].all fun w => sameSet (snapSigners a w) (snapSigners b w)
 
-/-- what must be true of a step's snapshot `cur` (and of the one after it, `next`, when the next
-    step is a restart): a successful registration is known now and after a restart, with the same
-    key material; a successfully archived wallet is unknown now and after a restart; a restart of a
-    just-restarted node changes nothing. -/
-def stepOk (wallet : Bool) (op : Op) (res : Res) (cur : Snap) (nextRestart : Option Snap) : Bool :=
+/-- what must be true of a step's snapshot `cur`, given the snapshot `prev` before the step and
+    the one after it (`nextRestart`) when the next step is a restart:
+    a successful registration is known now and after a restart, with the same key material;
+    a registration that reported a storage / wallet-ID error leaves what the node knows about that
+    wallet unchanged (nothing enters memory that was not durably registered);
+    a successfully archived wallet is unknown now and after a restart; a failed archival leaves
+    the wallet as it was;
+    a restart of a just-restarted node changes nothing. -/
+def stepOk (wallet : Bool) (op : Op) (res : Res) (prev cur : Snap) (nextRestart : Option Snap) : Bool :=
   match op with
   | .reg w i s _ =>
     if res == .ok then
       (snapSigners cur w).contains (i, s) &&
       (match nextRestart with | some n => (snapSigners n w).contains (i, s) | none => true)
+    else if res == .eSave || res == .eId then sameSet (snapSigners cur w) (snapSigners prev w)
     else true
   | .arch w _ =>
     -- (the group registry's UnregisterStaleGroups reports nothing: only the wallet registry's
@@ -140,16 +145,19 @@ def stepOk (wallet : Bool) (op : Op) (res : Res) (cur : Snap) (nextRestart : Opt
     if wallet && res == .ok then
       (snapSigners cur w).isEmpty &&
       (match nextRestart with | some n => (snapSigners n w).isEmpty | none => true)
+    else if wallet && (res == .eArch || res == .eNf) then
+      -- a failed archival forgets nothing
+      sameSet (snapSigners cur w) (snapSigners prev w)
     else true
   | .restart =>
     match nextRestart with
     | some n => snapEq cur n
     | none => true
 
-def holdsTrace (wallet : Bool) : List Op → List (Res × Snap) → Bool
+def holdsTrace (wallet : Bool) (prev : Snap) : List Op → List (Res × Snap) → Bool
   | op :: (Op.restart :: ops), (r, sn) :: ((r2, sn2) :: tr) =>
-    stepOk wallet op r sn (some sn2) && holdsTrace wallet (Op.restart :: ops) ((r2, sn2) :: tr)
-  | op :: ops, (r, sn) :: tr => stepOk wallet op r sn none && holdsTrace wallet ops tr
+    stepOk wallet op r prev sn (some sn2) && holdsTrace wallet sn (Op.restart :: ops) ((r2, sn2) :: tr)
+  | op :: ops, (r, sn) :: tr => stepOk wallet op r prev sn none && holdsTrace wallet sn ops tr
   | _, _ => true
 
 end KeepVerif.C38
